@@ -349,6 +349,7 @@ func runC15(p *core.Prog, r *core.Report) {
 	})
 
 	r.Guard("C15.R1", "key-term/same-key", "same lookup key", func() { checkKeyTermSameKey(p, r, "C15.R1") })
+	r.GuardExact("C15.R1", "bitmap/no-early-exit", "every child of an OR is combined", func() { checkBitmapEvaluatorVisitsAll(p, r, "C15.R1") })
 	// ------------------------------------------------------------------ R2
 	checkSharedBitmaps(p, r, "C15.R2")
 
